@@ -7,7 +7,7 @@ namespace CL
 
 inductive Ev
   | cfg (n : Nat) (mono : Bool)
-  | sender (srv term : Nat)
+  | sender (srv term t : Nat)
   | grant (voter term cand : Nat)
   | fapply (srv life idx term payload : Nat)
   | frestore (srv life : Nat) (data : List Nat)
@@ -26,7 +26,7 @@ deriving Repr
 
 /-- AppendEntries / InstallSnapshot of one term come from one server -/
 def oneSenderPerTerm (h : List Ev) : Option String :=
-  let ss := h.filterMap (fun e => match e with | .sender s t => some (s, t) | _ => none)
+  let ss := h.filterMap (fun e => match e with | .sender s t _ => some (s, t) | _ => none)
   match ss.find? (fun a => ss.any (fun b => a.2 == b.2 && a.1 != b.1)) with
   | some a => some s!"two-servers-acted-as-leader-in-term-{a.2}"
   | none => none
@@ -229,5 +229,21 @@ def notifyAlternates (h : List Ev) : Option String :=
   ls.findSome? (fun sl =>
     let vs := h.filterMap (fun e => match e with | .notify s l v => if s == sl.1 && l == sl.2 then some v else none | _ => none)
     if alternates vs true then none else some s!"notifications-of-{sl.1}-do-not-alternate")
+
+/-! ## C09 -/
+
+/-- VerifyLeader never succeeds on a server that had already been superseded when the call began:
+    no other server may have acted as leader of a higher term before the call was made.  (For a
+    verify call the `idx` field of the record carries the caller's term at the moment of the call.) -/
+def verifyFresh (h : List Ev) : Option String :=
+  let ss := h.filterMap (fun e => match e with | .sender s t tm => some (s, t, tm) | _ => none)
+  (calls h).findSome? (fun c =>
+    let kind := c.2.2.2.1; let code := c.2.2.2.2.2.2.2.1; let srv := c.2.1
+    let t0 := c.2.2.2.2.2.1; let term := c.2.2.2.2.2.2.2.2.1
+    if kind == 2 && code == 0 then
+      match ss.find? (fun x => x.1 != srv && x.2.1 > term && x.2.2 < t0) with
+      | some x => some s!"verify-leader-succeeded-on-{srv}-in-term-{term}-although-{x.1}-led-term-{x.2.1}-before-the-call"
+      | none => none
+    else none)
 
 end CL
